@@ -3,7 +3,7 @@ CONSTANTS
   NWit = 2
   MaxCalls = 3
   PrimaryPersonas = {"honest", "lunatic", "equiv", "silent", "notfound", "bad", "flip2", "nopivot", "badpivot", "thin3", "weak3", "bound3", "future3", "past3", "malformed3", "badsig3", "lunatic3", "weak4bad", "weak4hole"}
-  WitnessPersonas = {"honest", "lunatic", "equiv", "silent", "notfound", "bad", "lag2", "lagcatch", "lagfuture", "flip2", "thin3", "weak3", "bound3", "future3", "malformed3", "lunatic3"}
+  WitnessPersonas = {"honest", "lunatic", "equiv", "silent", "notfound", "bad", "lag2", "lagcatch", "lagfuture", "flip2", "thin3", "weak3", "bound3", "future3", "malformed3", "lunatic3", "relay3", "relay4"}
   Modes = {"skip", "seq"}
   Roots = {1, 3}
   WithUpdate = TRUE
@@ -19,7 +19,8 @@ CONSTANTS
   Weak_ReplacementHashUnchecked = FALSE
   Weak_PromotedWitnessStays = FALSE
   Weak_PartialTraceOnBenignError = FALSE
+  Weak_DivergentHeaderExaminedOncePerRun = FALSE
 INIT Init
 NEXT Next
-INVARIANTS TrustRootOnly StoreSound WitnessConfirmed IndependentWitness NoConfirmationFromSilence AttackReported AttackStoresNothing StoreMonotone
+INVARIANTS TrustRootOnly StoreSound WitnessConfirmed IndependentWitness NoConfirmationFromSilence AttackReported OrderIndependent AttackerNeverOutvoted AttackStoresNothing StoreMonotone
 CHECK_DEADLOCK FALSE
